@@ -952,7 +952,7 @@ func gen(c *lib.Ctx) {
 
 	// ---- random structured stream
 	c.Comment("random stream")
-	cases := c.Scale(12000, 250000)
+	cases := c.Scale(12000, 500000)
 	rf, rm, rs := r.Fork("ftm"), r.Fork("median"), r.Fork("meas")
 	for i := 0; i < cases; i++ {
 		switch i % 6 {
